@@ -62,6 +62,7 @@ package commands
 // least that long (trusted fact about strings.ToLower on names; multi-byte characters only make it longer).
 //@ go func lowerSuffixLen(data []byte, domain string) bool { return len(data) >= len(domain)+2 }
 
+//@ go func isDigitB(b byte) bool { return b >= '0' && b <= '9' }
 //@ func StripDomain
 //@   property C12
 //@   safe
@@ -71,6 +72,12 @@ package commands
 //@   loop 1 vars data []byte, res []byte
 //@   loop 1 invariant spec_fresh(res)
 //@   loop 1 decreases len(data)
+// C09: a backslash followed by three decimal digits is ALWAYS read as one escaped octet, wherever it stands
+// (also at the very end of the name): the decision is the constant pattern applied to the rest of the name,
+// and the escape is decoded from exactly those three digits
+//@   property C09
+//@   callsite MatchString#1 (m bool, data []byte) assume m == (len(data) >= 4 && isDigitB(data[1]) && isDigitB(data[2]) && isDigitB(data[3])) "semantics of the constant pattern ^[0-9]{3} applied to the name after the backslash"
+//@   callsite ParseInt#1 (data []byte) require len(data) >= 4 && isDigitB(data[1]) && isDigitB(data[2]) && isDigitB(data[3])     :escape_decoded_from_three_digits
 
 //@ func ComposeRequest
 //@   property C12
